@@ -134,7 +134,7 @@ WBCases == {[kind |-> "wingbox", d |-> d, L |-> L, E |-> R(7), G |-> R(3), J |->
                 d \in Dirs, L \in {R(2)}, s \in States, rg \in Rigids, sc \in {ROne, R(-3)}}
 KSVecs == {<<R(100)>>, <<R(100), R(100), R(100)>>, <<R(50), R(400), R(10)>>, <<R(0), R(0)>>, <<R(10000000), R(1), R(9999999)>>, <<R(199), R(200), R(201), R(150)>>,
            <<R(3), R(2), R(1)>>, <<R(0), R(5000), R(0)>>}
-KSCases == {[kind |-> "ks", sigma |-> R(200), rho |-> R(100), vm |-> v] : v \in KSVecs}
+KSCases == {[kind |-> "ks", sigma |-> R(200), rho |-> r, vm |-> v] : v \in KSVecs, r \in {R(100), R(1000)}}   \* rho is a public option: default and very tight
 \* the aggregate is a function of the CURRENT stresses only: the same component instance evaluated at `prev` first (the
 \* critical element somewhere else, the magnitudes decades apart) must give for `vm` exactly what a fresh one gives
 KSSeqCases == UNION {{[kind |-> "ksseq", sigma |-> R(200), rho |-> R(100), vm |-> v, prev |-> p] : p \in {q \in KSVecs : Len(q) = Len(v) /\ q # v}} : v \in KSVecs}
